@@ -98,6 +98,11 @@ func (self *Interpreter) letStatement(node ast.AnalyzedLetStatement) *value.Inte
 func (self *Interpreter) loopStatement(node ast.AnalyzedLoopStatement) *value.Interrupt {
 loop:
 	for {
+		// An empty loop body contains nothing which would check for cancelation.
+		if i := self.checkCancelation(node.Span()); i != nil {
+			return i
+		}
+
 		_, i := self.block(node.Body, true)
 		if i != nil {
 			switch (*i).Kind() {
